@@ -5,8 +5,9 @@
 cd /verif
 if [ -n "$(git -C /repo status --porcelain)" ]; then echo "/repo not clean"; exit 2; fi
 for d in seeded/C*/; do
-  id=$(basename $d)
-  if ! git -C /repo apply --check /verif/$d/patch.diff 2>/dev/null; then echo "$id patch does not apply"; continue; fi
+  sid=$(basename $d)
+  id=${sid:0:3}
+  if ! git -C /repo apply --check /verif/$d/patch.diff 2>/dev/null; then echo "$sid patch does not apply"; continue; fi
   git -C /repo apply /verif/$d/patch.diff
   res=""
   for sd in ${SEEDS:-1 2 3}; do
@@ -16,6 +17,6 @@ for d in seeded/C*/; do
     res="$res seed$sd:rc=$rc$tag"
   done
   git -C /repo checkout -- .
-  echo "$id $res"
+  echo "$sid $res"
 done
 git -C /repo status --short
